@@ -2100,4 +2100,16 @@ theorem is_definition_structural_counterexample :
     Spec.codeOf .strayPlaceholder ∈ codes (errors (validate env false copySwapped)) := by
   decide +kernel
 
+/-! #### a schema loaded under a namespace: the capitalisation rule reads the tag name without its prefix -/
+
+def envNs : Env := { env with ns := ['t','l',':'] }
+
+example : (validate envNs false ['t','l',':','r','e','d']).map (·.kind) = [Kind.style] := by decide +kernel
+example : validate envNs false ['t','l',':','R','e','d'] = [] := by decide +kernel
+example : (validate envNs false ['t','l',':','I','t','e','m','/','X','q']).map (·.kind) = [Kind.tagExtended] := by decide +kernel
+example : (validate envNs false ['T','l',':','r','e','d']).map (·.kind) = [Kind.libraryUnmatched] := by decide +kernel
+/-- the name after the prefix is what is inspected: `styleIssues` of a tag whose base is `tl:9x` is silent
+(`"9x".capitalize() == "9x"`), although `"tl:9x"` as a whole is not capitalised -/
+example : styleIssues ⟨(0, 5), ['t','l',':','9','x'], ['t','l',':'], none, []⟩ = [] := by decide
+
 end HedVerif.C01.Tiny
